@@ -62,7 +62,7 @@ def gen(ctx, rng):
         cases.append(dict(kind="wcvp", y=[float(v) for v in y], nodata=-3000.0, llas=[float(v) for v in np.arange(-1.0, 1.6, 0.5)],
                           robust=bool(it % 4 < 2), n=n, miss=0, degenerate=False, p=float(rng.choice([0.99999, 0.9999, 0.999, 0.00001]))))
     acc = []
-    for k in range(4 if ctx.thorough else 2):
+    for k in range(8 if ctx.thorough else 4):
         T = int(rng.integers(10, 40))
         cube = np.stack([np.stack([gen_series(rng, T, negative_ok=False) for _ in range(2)]) for _ in range(2)])
         cube[0, 0] = degenerate_series(rng, T, k % 4)
@@ -72,8 +72,11 @@ def gen(ctx, rng):
         if k % 2:
             a["p"] = 0.85
         if k >= 2:
-            a["srange"] = [float(v) for v in np.arange(-1, 3.5, 0.5)]
-            a["robust"] = False
+            # grids on and off the one-decimal lattice (steps 0.5, 0.25, 0.05; an offset grid; a linspace)
+            a["srange"] = [[float(v) for v in np.arange(-1.85, 2.0, 0.3)], [float(v) for v in np.arange(-0.975, 2.1, 0.25)],
+                           [float(v) for v in np.arange(-1, 3.5, 0.5)], [float(v) for v in np.arange(0.325, 1.2, 0.05)],
+                           [float(v) for v in np.linspace(-1, 3, 17)], [float(v) for v in np.arange(-1, 2.1, 0.25)]][(k - 2) % 6]
+            a["robust"] = bool(k % 4 == 1)
         pcs = []
         for yy in range(2):
             for xx in range(2):
